@@ -114,17 +114,18 @@ Qed.
 Print Assumptions batch_key_local.
 
 (* The executable checker of the correspondence is sound and complete for complete
-   per-key histories over the string-key machine [kstep] (GET, SET, INCR, APPEND, DEL, atomic
-   lists of these): it answers true exactly when some permutation of the history that
+   per-key histories over the per-key machine [kstep] (strings, lists, sets, hashes: GET, SET [NX|XX] [GET], SETNX,
+   GETSET, GETDEL, INCRBY, APPEND, SETRANGE, DEL, EXISTS, LPUSH/RPUSH/LPOP/RPOP, SADD/SREM, HSET/HDEL,
+   atomic lists of these): it answers true exactly when some permutation of the history that
    respects real-time order is a legal sequential run with the observed replies. *)
 Theorem lin_check_sound : forall init h,
   lin_check init h = true ->
-  linearizable_complete (option (list N)) (list prim) (list prep) kstep init h.
+  linearizable_complete kst (list prim) (list prep) kstep init h.
 Proof. exact lin_check_sound_lemma. Qed.
 Print Assumptions lin_check_sound.
 
 Theorem lin_check_complete : forall init h,
-  linearizable_complete (option (list N)) (list prim) (list prep) kstep init h ->
+  linearizable_complete kst (list prim) (list prep) kstep init h ->
   lin_check init h = true.
 Proof. exact lin_check_complete_lemma. Qed.
 Print Assumptions lin_check_complete.
@@ -132,7 +133,7 @@ Print Assumptions lin_check_complete.
 (* with distinct operation ids this is the classical definition (no pending operations) *)
 Theorem lin_check_classical : forall init h,
   NoDup (map o_id h) -> lin_check init h = true ->
-  linearizable (option (list N)) (list prim) (list prep) kstep init h [].
+  linearizable kst (list prim) (list prep) kstep init h [].
 Proof.
   intros init h Hn Hc.
   exact (complete_linearizable _ _ _ kstep init h Hn (lin_check_sound_lemma init h Hc)).
@@ -143,7 +144,7 @@ Print Assumptions lin_check_classical.
    the two procedures always agree; a [false] answer needs no further confirmation *)
 Theorem lin_brute_exact : forall init h,
   lin_brute init h = true <->
-  linearizable_complete (option (list N)) (list prim) (list prep) kstep init h.
+  linearizable_complete kst (list prim) (list prep) kstep init h.
 Proof. exact lin_brute_exact_lemma. Qed.
 Print Assumptions lin_brute_exact.
 
@@ -163,9 +164,9 @@ Print Assumptions lin_check_listing_irrelevant.
 (* the keyed store (keys are numbers, an operation = a key and an atomic list of primitives)
    satisfies the three hypotheses of [per_key] for any number of shards *)
 Example C02_store_satisfies_hypotheses : forall n,
-  (forall (s : nat -> option (list N)) op k, store_touches op k = true ->
+  (forall (s : nat -> kst) op k, store_touches op k = true ->
      store_kstep k (store_view s k) op = (store_view (fst (store_step s op)) k, snd (store_step s op))) /\
-  (forall (s : nat -> option (list N)) op k, store_touches op k = false ->
+  (forall (s : nat -> kst) op k, store_touches op k = false ->
      store_view (fst (store_step s op)) k = store_view s k) /\
   (forall op k, store_touches op k = true -> store_route n op = Nat.modulo k n).
 Proof.
@@ -183,7 +184,7 @@ Definition ex_labels : list (label (nat * list prim)) :=
     LInvoke 0 KPooled (2, [PGet]); LProcess 1; LProcess 0; LReturn 1; LReturn 2; LReturn 0 ].
 
 Example C02_nonvacuous :
-  match run store_step (store_route 2) 1 (sys_init (fun _ _ => None) 1) ex_labels with
+  match run store_step (store_route 2) 1 (sys_init (fun _ _ => KNone) 1) ex_labels with
   | Some (s, evs) =>
       free s = [1] /\ next_slot s = 3 /\
       map (fun e => match e with EInv rq _ => Some (rq_slot rq) | _ => None end) evs =
@@ -200,10 +201,10 @@ Print Assumptions C02_nonvacuous.
 
 (* the checker accepts a linearizable history with overlap and rejects a stale read *)
 Example C02_checker_discriminates :
-  lin_check None [OpRec 0 0 (Some 3) [PSet [97%N]] [ROk];
+  lin_check KNone [OpRec 0 0 (Some 3) [PSet [97%N]] [ROk];
                   OpRec 1 1 (Some 4) [PGet] [RVal None];
                   OpRec 2 5 (Some 6) [PGet] [RVal (Some [97%N])]] = true /\
-  lin_check None [OpRec 0 0 (Some 1) [PSet [97%N]] [ROk];
+  lin_check KNone [OpRec 0 0 (Some 1) [PSet [97%N]] [ROk];
                   OpRec 1 2 (Some 3) [PGet] [RVal None]] = false.
 Proof. vm_compute. split; reflexivity. Qed.
 Print Assumptions C02_checker_discriminates.
